@@ -27,8 +27,12 @@ struct Tally {
     quote_learns: u64,
     commits_after_backspace: u64,
     histories_with_leftover_tmp: u64,
+    histories_with_second_profile: u64,
+    targeted_special_join_histories: u64,
 }
 fn flush(t: &Tally, out: &mut Out) {
+    out.count("histories_with_a_second_profile_opened_in_the_same_process", t.histories_with_second_profile);
+    out.count("targeted_histories_with_a_learned_choice_ending_in_khanda_ta_or_anusvara", t.targeted_special_join_histories);
     out.count("evaluations", t.calls);
     out.count("typings", t.typings);
     out.count("learning_commits", t.learning_commits);
@@ -149,6 +153,17 @@ fn run_history(o: &PhonOracle, spec: CfgSpec, steps: &[Step], root: &std::path::
         t.histories_with_leftover_tmp += 1;
     }
     let Ok(mut sess) = Sess::new(spec, root) else { return };
+    // in every second history a second profile is opened in the same process after the context was created (another
+    // XDG_DATA_HOME, as when an application hosts two users' keyboards): the context must keep saving into the user
+    // directory it was created for, and nothing may appear in the other one
+    let second_profile = root.with_file_name("c09-second-profile");
+    let _decoy = if steps.len() % 2 == 0 {
+        fresh_root(&second_profile);
+        t.histories_with_second_profile += 1;
+        Sess::new(CfgSpec::new(Lay::Phonetic, O_PSUGG), &second_profile).ok()
+    } else {
+        None
+    };
     let mut model: HashMap<String, Learned> = HashMap::new();
     let mut since_restart = true;
     let sq = spec.has(O_SQ);
@@ -310,6 +325,10 @@ fn run_history(o: &PhonOracle, spec: CfgSpec, steps: &[Step], root: &std::path::
         }
         since_restart = false;
     }
+    if _decoy.is_some() && selection_file(&second_profile).exists() {
+        out.violation("choice-remembered-for-same-text", "c09:choice-saved-into-another-profile".into(), case(steps.len() - 1), "learned choices are saved into the user directory the context was created for".into(),
+                      format!("a store appeared in the directory of a second profile opened later in the same process: {:?}", std::fs::read_to_string(selection_file(&second_profile)).unwrap_or_default()));
+    }
     // ---- every learned text once more in a truly new context
     if final_restart_check && !model.is_empty() {
         if sess.restart().is_err() {
@@ -446,6 +465,19 @@ impl Prop for C09 {
             let (spec, steps) = gen_history(&mut rng, thorough);
             out.begin_case(|| steps_json(&spec, &steps));
             run_history(&o, spec, &steps, &root, true, out, &mut t);
+        }
+        // targeted: a learned choice that ends in ৎ / ং (joined as ত / ঙ) followed by suffixes that begin with a letter and with a sign
+        if env.shard == 0 {
+            for (base, k) in [("ishot", 1usize), ("rong", 0), ("song", 3)] {
+                for sfx in ["i", "o", "ke", "ra", "te", "er", "e", "gulo"] {
+                    let st = |restart: bool, word: String, pick: Option<usize>| Step { restart, lead: String::new(), word, trail: String::new(), pick, overshoot: 0 };
+                    let steps = vec![st(false, base.to_string(), Some(k)), st(false, format!("{base}{sfx}"), None), st(true, format!("{base}{sfx}"), None), st(false, base.to_string(), None)];
+                    let spec = CfgSpec::new(Lay::Phonetic, O_PSUGG);
+                    out.begin_case(|| steps_json(&spec, &steps));
+                    t.targeted_special_join_histories += 1;
+                    run_history(&o, spec, &steps, &root, true, out, &mut t);
+                }
+            }
         }
         flush(&t, out);
         // the same clauses observed from outside: system calls of a traced child process (see systrace.rs)
